@@ -157,6 +157,14 @@ theorem sat_next_of_done1 (hs : Start s0) {e : Exec Unit}
 
 theorem Tier.cost_pos (t : Tier) : 1 ≤ t.cost := by cases t <;> decide
 
+/-- an EOF-only handler in legacy code stops at `require_eof!` -/
+theorem eofGuard_sat {α} (hs : Start s0) (k : Unit → M α) {Q : α → IState → Prop} :
+    Exec.Sat ((requireEof >>= k) s0) (Halt s0) Q := by
+  refine sat_bind (m := requireEof) (Q := fun _ _ => False) ?_ (fun _ _ hf => hf.elim)
+  unfold requireEof
+  rw [hs.legacy]
+  exact sat_halt hs.rel.toCore.toHalt
+
 theorem execPure_sat (hs : Start s0) (i : Instr) (m : M Unit) (hm : execPure i = some m) :
     Exec.Sat (m s0) (Halt s0) (fun _ s' => Next s0 s') := by
   have h := hs.rel
@@ -164,11 +172,21 @@ theorem execPure_sat (hs : Start s0) (i : Instr) (m : M Unit) (hm : execPure i =
   case stop => exact haltWith_sat h _
   case invalid => exact haltWith_sat h _
   case unknown => exact haltWith_sat h _
-  case eofOnly =>
-    refine sat_bind (m := requireEof) (Q := fun _ _ => False) ?_ (fun _ _ hf => hf.elim)
-    unfold requireEof
-    rw [hs.legacy]
-    exact sat_halt h.toCore.toHalt
+  case eofOnly => exact eofGuard_sat hs _
+  case rjump => unfold rjumpI; exact eofGuard_sat hs _
+  case rjumpi => unfold rjumpiI; exact eofGuard_sat hs _
+  case rjumpv => unfold rjumpvI; exact eofGuard_sat hs _
+  case callf => unfold callfI; exact eofGuard_sat hs _
+  case retf => unfold retfI; exact eofGuard_sat hs _
+  case jumpf => unfold jumpfI; exact eofGuard_sat hs _
+  case dupn => unfold dupnI; exact eofGuard_sat hs _
+  case swapn => unfold swapnI; exact eofGuard_sat hs _
+  case exchange => unfold exchangeI; exact eofGuard_sat hs _
+  case dataload => unfold dataloadI; exact eofGuard_sat hs _
+  case dataloadn => unfold dataloadnI; exact eofGuard_sat hs _
+  case datasize => unfold datasizeI; exact eofGuard_sat hs _
+  case datacopy => unfold datacopyI; exact eofGuard_sat hs _
+  case returndataload => unfold returndataloadI; exact eofGuard_sat hs _
   case returnContract =>
     show Exec.Sat (if !s0.isEofInit then _ else _) _ _
     rw [hs.notInit]
